@@ -31,6 +31,18 @@ STMT_CONSTRUCTS = {
     "array-store": ("raw", "RsV[1] = 2;"),
     "member-store": ("raw", "RsV.f = 2;"),
     "pre-increment": ("raw", "++RxV;"),
+    # the same keywords in shapes that avoid the label / break handlers
+    "switch-nolabel": ("raw", "switch (RsV) { RdV = 1; }"),
+    "switch-unbraced": ("raw", "switch (RsV) RdV = 1;"),
+    "switch-empty": ("raw", "switch (RsV) { }"),
+    "while-empty": ("raw", "while (RsV) ;"),
+    "while-unbraced": ("raw", "while (RsV) RdV = 1;"),
+    "do-while-unbraced": ("raw", "do RdV = 1; while (RsV);"),
+    "goto-in-if": ("raw", "if (RsV) goto lbl;"),
+    "break-in-if": ("raw", "if (RsV) break;"),
+    "label-empty": ("raw", "lbl: ;"),
+    "comma-in-for": ("raw", "for (i = 0, j = 1; i < 2; i++) { RdV = j; }"),
+    "comma-in-condition": ("raw", "if (RdV = 1, RsV) { ReV = 2; }"),
 }
 EXPR_CONSTRUCTS = {
     "array-read": "RsV[1]", "member-read": "RsV.f", "arrow-read": "RsV->f", "deref": "*RsV", "address-of": "&RsV",
@@ -388,6 +400,47 @@ def template_part(ctx):
             ctx.count("template:not judged " + type(e).__name__)
 
 
+SUB_BODIES = [("ret-call", "uint32_t", ["uint32_t x"], "{ return clz32(x); }"),
+              ("ret-call-expr", "uint32_t", ["uint32_t x"], "{ return clz32(~x) + 1; }"),
+              ("ret-postinc", "uint32_t", ["uint32_t x"], "{ uint32_t t = x; return t++; }"),
+              ("ret-nested-call", "uint32_t", ["uint32_t x"], "{ return clo32(clz32(x)); }"),
+              ("ret-in-if", "uint32_t", ["uint32_t x"], "{ if (x) { return clo32(x); } return 0; }"),
+              ("stmt-then-ret", "uint32_t", ["uint32_t x"], "{ uint32_t t = x; t++; clz32(t); return t; }"),
+              ("ret-cond-call", "uint32_t", ["uint32_t x"], "{ return x ? clz32(x) : 32; }")]
+
+
+def subroutine_part(ctx):
+    """(e) sub-routine bodies: every effect declared in the emitted definition is reachable from its return
+    (bundled bodies and template bodies whose `return` consumes a value-producing operation)"""
+    import json
+    from rzilcompiler.Transformer.Hybrids.SubRoutine import SubRoutineInitType
+    c = boot.new_compiler("stmt")
+    with open(os.path.join(boot.REPO_DIR, "Resources/Hexagon/sub_routines.json")) as f:
+        names = list(json.load(f))
+    for tag, ret, params, body in SUB_BODIES:
+        name = f"c15_{tag.replace('-', '_')}_{os.getpid()}"
+        try:
+            with boot.quiet():
+                c.add_sub_routine(name, ret, params, body)
+            names.append(name)
+        except Exception:
+            ctx.count("sub-routine body rejected")
+    for name in names:
+        ctx.evaluations += 1
+        try:
+            text = c.get_sub_routine(name).il_init(SubRoutineInitType.DEF)
+            _, _, body = reader.parse_subroutine_def(text)
+        except Exception as e:
+            ctx.count("sub-routine definition unreadable " + type(e).__name__)
+            continue
+        ctx.nontriv(("subroutine", name.split(str(os.getpid()))[0]))
+        nm, raw, dup = static.count_uses(body)
+        un = [n for n, k in nm.items() if k == "effect" and raw[n] == 0]
+        if un:
+            ctx.failure(f"C15 sub-routine body has unreachable effects [{name.split('_' + str(os.getpid()))[0]}]",
+                        {"sub_routine": name, "unreachable": un[:5], "definition": text})
+
+
 def run_check(ctx):
     ctx.rule = ("(a) Hypothesis base programs x 4 statement-level + 2 expression-level insertions of unsupported constructs at generated "
                 "positions (top level between statements, if/else arms, loop bodies, operand positions); (b) unreachable-effect scan of "
@@ -402,6 +455,7 @@ def run_check(ctx):
             if not ok:
                 ctx.known_hit[f["id"]] = f
     template_part(ctx)
+    subroutine_part(ctx)
     n1, n2 = (6000, 12000) if ctx.tier == "thorough" else (320, 320)
     n3 = 6000 if ctx.tier == "thorough" else 480
     ctx.extra["rename_pool"] = rename_pool()
